@@ -73,9 +73,12 @@ PROPS['C18'] = dict(
 )
 
 PROPS['C13'] = dict(
-    level='exploration', builds={'vaddr_race': dict(pkg='./cmd/vaddr', overlay='shim', race=True)},
-    stages=[dict(name='addr', bin='vaddr_race', shards=shards(4, 12), par=12, crash_is_violation=True, crash_key='addr:crash')],
-    need_counters=['attaches', 'auto_assigned', 'static_assigned', 'delivery_probes', 'binds', 'binds_conflicting', 'binds_ephemeral', 'probes_delivered', 'closes'],
+    level='exploration', builds={'vaddr_race': dict(pkg='./cmd/vaddr', overlay='shim', race=True), 'vaddr_delays': dict(pkg='./cmd/vaddr', overlay='yield', race=True)},
+    stages=[dict(name='addr', bin='vaddr_race', shards=shards(4, 12), par=12, crash_is_violation=True, crash_key='addr:crash'),
+            # the concurrent part again, with delays inserted at the synchronisation points of package vnet
+            dict(name='addr-delays', bin='vaddr_delays', args=['-conconly'], shards=shards(4, 12), par=12, crash_is_violation=True, crash_key='addr:crash', group='g2', replay='rerun')],
+    replay_stage='addr',
+    need_counters=['attaches', 'auto_assigned', 'static_assigned', 'delivery_probes', 'binds', 'binds_conflicting', 'binds_ephemeral', 'probes_delivered', 'closes', 'concurrent_same_address_binds', 'concurrent_ephemeral_binds', 'concurrent_attachments'],
 )
 
 for _p in ('C02', 'C03'):
